@@ -70,6 +70,19 @@ def probe_portfolio(spec):
                     op0.optimize()
             except Exception as e:
                 o['warmup_error'] = repr(e)[:200]
+        if opts.get('warmup_shift'):
+            # the same objects were set up before on another window of the same length and frequency (rolling horizon)
+            try:
+                g0 = dict(spec['grid'])
+                d0 = (pd.Timestamp(g0['end']) - pd.Timestamp(g0['start'])) * int(opts['warmup_shift'])
+                g0['start'] = str(pd.Timestamp(g0['start']) + d0)
+                g0['end'] = str(pd.Timestamp(g0['end']) + d0)
+                tg0 = mk_grid(g0)
+                if tg0.T == tg.T:
+                    portf.setup_optim_problem(prices, tg0)
+                    o['warmup_shift_done'] = True
+            except Exception as e:
+                o['warmup_error'] = repr(e)[:200]
         skw = {'skip_nodes': list(opts['skip_nodes'])} if opts.get('skip_nodes') else {}
         op = portf.setup_optim_problem(prices, tg, **skw)
     except Exception as e:
@@ -534,6 +547,15 @@ def probe_grid(spec):
         except Exception as e:
             r['status'] = 'error'
             r['error'] = repr(e)[:200]
+        ws = spec.get('windows', [])
+        w2 = ws[(ws.index(w) + 1) % len(ws)]
+        if r.get('status') == 'ok' and not w.get('freq') and not w2.get('freq') and len(r['I']) > 0:
+            # the restricted grid restricted once more (with the next window of the list)
+            try:
+                rg.set_restricted_grid(ts(w2.get('start')), ts(w2.get('end')))
+                r['nested'] = {'status': 'ok', 'I': [int(i) for i in rg.restricted.I], 'tp': [_inst(t) for t in rg.restricted.timepoints]}
+            except Exception as e:
+                r['nested'] = {'status': 'error', 'error': repr(e)[:200]}
         o['windows'].append(r)
     o['ivals'] = []
     for p in spec.get('ivals', []):
